@@ -158,6 +158,7 @@ def run(args):
     setup_subject()
     n = int((400 if args.tier == 'quick' else 20000) * args.scale)
     cases = [(args.seed, i) for i in range(n)]
+    cases = core.replay_cases(args, cases)
     B = 6
     batches = [cases[k:k + B] for k in range(0, len(cases), B)]
     hf = []
